@@ -13,7 +13,7 @@ def forced_cases(ctx, shapes, n_soup):
     cases = []
     k = 0
     for a in shapes:
-        doc = plssdoc.concretise(a, ctx.rng)
+        doc = plssdoc.concretise(a, ctx.rng, vary_tr=True)
         text = plssdoc.render_doc(doc, ctx.rng)
         for ch in plsstok.CHANNELS:
             cfg = ctx.rng.choice([None, "segment", "sec_within", "sec_colon_required", "parse_qq", "segment,sec_colon_cautious"])
